@@ -299,7 +299,9 @@ def r01_4(ctx, p):
                      where=where(f, x))
     # caches (shared with C08 R08.7)
     cs = p.cls(CACHED)
-    ins = {a.field for m in ("create_new_study", "create_new_trial", "_add_trials_to_cache") for a in field_accesses(cs.methods[m].node) if a.kind == "mutate"}
+    # every method that inserts into the cache: the two creators, the refresh and whatever private helper they share (if any)
+    inserters = [m for m in cs.methods if m in ("create_new_study", "create_new_trial", "_read_trials_from_remote_storage") or (m.startswith("_add_") and "cache" in m)]
+    ins = {a.field for m in inserters for a in field_accesses(cs.methods[m].node) if a.kind == "mutate"}
     removed = {a.field for a in field_accesses(cs.methods["delete_study"].node) if a.kind == "mutate"}
     for c in sorted(ins):
         ctx.check(c in removed, "R01.4", cs.methods["delete_study"].short, f"removes:{c}", message=f"_CachedStorage.delete_study leaves entries in {c}", how="del statement")
